@@ -39,7 +39,8 @@ def library_exception(e, context=''):
         raise e
     tb = traceback.extract_tb(e.__traceback__)
     site = next((f"{f.filename.split('/ixai/')[-1]}:{f.lineno}" for f in reversed(tb) if '/ixai/' in f.filename), None)
-    if site is None or (tb and ('/ixverif/' in tb[-1].filename or '/checks/' in tb[-1].filename)):
+    if site is None or (tb and ('/ixverif/' in tb[-1].filename or '/checks/' in tb[-1].filename)
+                        and not getattr(e, '_emulated', False)):
         raise e
     return Violation(f"{CURRENT_PID[0]}/raised/{type(e).__name__}",
                      f"the library raised {type(e).__name__}: {e} (at ixai/{site}) {context}", {})
@@ -120,7 +121,8 @@ def execute(driver, prefix=(), float_policy=None, check_ownership=True, default_
         # under test (deterministic and replayable like any other); harness trouble has its own exception types
         tb = traceback.extract_tb(e.__traceback__)
         site = next((f"{f.filename.split('/ixai/')[-1]}:{f.lineno}" for f in reversed(tb) if '/ixai/' in f.filename), None)
-        if site is None or (tb and ('/ixverif/' in tb[-1].filename or '/checks/' in tb[-1].filename)):
+        if site is None or (tb and ('/ixverif/' in tb[-1].filename or '/checks/' in tb[-1].filename)
+                            and not getattr(e, '_emulated', False)):
             raise           # raised by (or inside) the harness itself: harness trouble, never a verdict
         viol = Violation(f"{CURRENT_PID[0]}/raised/{type(e).__name__}",
                          f"the library raised {type(e).__name__}: {e} (at ixai/{site}) on a legal input; choices "
